@@ -298,19 +298,21 @@ func runCRLs(c *engine.Ctx) {
 func runCSRResponses(c *engine.Ctx) {
 	for k := 0; k < nKinds; k++ {
 		for ns := 1; ns <= 2; ns++ {
-			k, ns := k, ns
-			c.Case(fmt.Sprintf("rt/csr-response/issuer=%s/signCerts=%d", kindName[k], ns), func(t *engine.T) {
-				env, err := getEnv(k)
-				if err != nil {
-					t.Fail("setup/issuer-ca/"+kindName[k], "%v", err)
-					return
-				}
-				for enc := 0; enc < 3; enc++ {
-					for _, long := range []bool{false, true} {
-						checkCSRResponse(t, env, ns, enc, long)
+			for enc := 0; enc < 3; enc++ {
+				k, ns, enc := k, ns, enc
+				c.Case(fmt.Sprintf("rt/csr-response/issuer=%s/signCerts=%d/encMode=%d", kindName[k], ns, enc), func(t *engine.T) {
+					env, err := getEnv(k)
+					if err != nil {
+						t.Fail("setup/issuer-ca/"+kindName[k], "%v", err)
+						return
 					}
-				}
-			})
+					for _, long := range []bool{false, true} {
+						// the embedded certificate is altered once per (issuer, signCerts, encMode); the long-name
+						// variant only changes the SET OF order
+						checkCSRResponse(t, env, ns, enc, long, !long)
+					}
+				})
+			}
 		}
 	}
 }
